@@ -483,7 +483,7 @@ pub fn generics_body(c: &GCase, obs: &mut Obs) -> Result<(), String> {
     if !out.success {
         let twin = farm::compile(&a, &c.source(false), false)?;
         if !twin.success {
-            return Err(format!("harness bug: generic definition does not compile even without the derive: {} || with derive: {}", twin.summary(), out.summary()));
+            return Err(format!("generator-invalid: generic definition does not compile even without the derive: {} || with derive: {}", twin.summary(), out.summary()));
         }
         let sig = if out.proc_macro_panicked() && c.sig() == "derive-rejects-generic" { "derive-panic" } else { c.sig() };
         return obs.fail_sig(sig, format!("the derive (or the use of its impl) is rejected for a supported generic definition: {} || definition: {}", out.summary(), c.definition(true).replace('\n', " ")));
